@@ -21,6 +21,8 @@ from typing import Dict, List, Optional
 from engine.src import FunctionInfo, own_nodes, src_of, AnalysisError, ClassInfo
 from engine import extsrc, norm
 from engine.util import kwarg
+from .common import resolve_call
+from .sem import xt, stmt_of, paths, block_paths, cy_expander, RAISE, BREAK, CONTINUE
 
 RULES = {
     "C14.a": "element-kind abstract interpretation of _word_ngrams: stop-word membership is tested on str elements; the n-gram section receives tuple-of-str",
@@ -44,6 +46,8 @@ def _kind(e: ast.AST, env: Dict[str, str]) -> str:
         return U
     if isinstance(e, ast.IfExp):
         t = e.test
+        if isinstance(t, ast.UnaryOp) and isinstance(t.op, ast.Not):
+            return _kind(ast.IfExp(test=t.operand, body=e.orelse, orelse=e.body), env)
         # (x,) if isinstance(x, str) else x
         if isinstance(t, ast.Call) and isinstance(t.func, ast.Name) and t.func.id == "isinstance" and len(t.args) == 2 and isinstance(t.args[0], ast.Name) and src_of(t.args[1]) == "str":
             v = t.args[0].id
@@ -127,16 +131,188 @@ def check_a(ck, repo):
         ck.violated("C14.a", fi, f"{sw} filter", f"no statement filters tokens against {sw}: stop words are never removed")
     k = elem.get(tok, U)
     ck.verdict(k == T, "C14.a", fi, f"element kind of {tok} at the n-gram section: {k}", "every token reaching the n-gram section is a tuple of strings", f"tokens reaching the n-gram section have kind {k} (expected tuple-of-str): vocabulary keys become nested tuples or plain strings instead of token tuples")
-    # space_join flattens: returns tuple(new_tokens) built by append(str) / extend(tuple)
-    sj = [f for f in repo.all_functions.values() if f.parent is fi and f.name == "space_join"]
-    if len(sj) != 1:
-        ck.unknown("C14.a", fi, "space_join", "helper not found")
+    # the join function flattens: str -> appended, tuple -> extended, result tuple(...)
+    site = _append_site(fi)
+    t = None
+    if site is not None:
+        arg = site[2]
+        if isinstance(arg, ast.Call):
+            t = resolve_call(repo, fi, arg)
+    if t is None:
+        ck.unknown("C14.a", fi, "join function of the n-gram loop", "helper not found")
     else:
-        t = sj[0]
-        rets = [src_of(r.value) for r in own_nodes(t.node) if isinstance(r, ast.Return)]
-        body_t = [src_of(x) for x in own_nodes(t.node) if isinstance(x, ast.Expr)]
-        ok = rets == ["tuple(new_tokens)"] and "new_tokens.append(token)" in body_t and "new_tokens.extend(token)" in body_t
-        ck.verdict(ok, "C14.a", t, "space_join: append(str) / extend(tuple) -> tuple(...)", "an n-gram is the flat tuple of its tokens", "space_join does not flatten its tokens into one tuple")
+        par = t.named_params[0]
+        loops = [l for l in own_nodes(t.node) if isinstance(l, ast.For) and isinstance(l.target, ast.Name) and src_of(l.iter) == par]
+        ok = False
+        if len(loops) == 1:
+            v = loops[0].target.id
+            accs = set()
+            good = 0
+            bad = 0
+            for p in block_paths(t, loops[0].body):
+                facts = dict(p.conds)
+                cs = [(src_of(c.func), [ast.unparse(a) for a in c.args]) for c in p.calls if isinstance(c.func, ast.Attribute) and c.func.attr in ("append", "extend", "insert")]
+                is_s, is_t = facts.get(f"isinstance({v}, str)"), facts.get(f"isinstance({v}, tuple)")
+                if p.ret == RAISE:
+                    if not (is_s is False and is_t is False):
+                        bad += 1
+                    continue
+                if is_s is True and len(cs) == 1 and cs[0][0].endswith(".append") and cs[0][1] == [v]:
+                    accs.add(cs[0][0].rsplit(".", 1)[0]); good += 1
+                elif is_s is False and is_t is True and len(cs) == 1 and cs[0][0].endswith(".extend") and cs[0][1] == [v]:
+                    accs.add(cs[0][0].rsplit(".", 1)[0]); good += 1
+                else:
+                    bad += 1
+            rets = [p.ret_text() for p in paths(t) if p.ret != RAISE]
+            ok = good == 2 and bad == 0 and len(accs) == 1 and rets == [f"tuple({next(iter(accs))})"]
+        ck.verdict(ok, "C14.a", t, f"{t.name}: append(str) / extend(tuple) -> tuple(...)", "an n-gram is the flat tuple of its tokens", f"{t.name} does not flatten its tokens into one tuple")
+
+
+def _set_parents(tree):
+    for node in ast.walk(tree):
+        for child in ast.iter_child_nodes(node):
+            child._parent = node  # type: ignore[attr-defined]
+
+
+def _append_site(fi: FunctionInfo):
+    """(call, receiver expression, appended argument, inner loop, outer loop) of the
+    n-gram append inside the doubly nested loop"""
+    for c in ast.walk(fi.node):
+        if isinstance(c, ast.Call) and len(c.args) == 1:
+            loops = []
+            p = getattr(c, "_parent", None)
+            while p is not None and p is not fi.node:
+                if isinstance(p, ast.For):
+                    loops.append(p)
+                if isinstance(p, (ast.FunctionDef, ast.Lambda)):
+                    loops = None
+                    break
+                p = getattr(p, "_parent", None)
+            if loops and len(loops) == 2:
+                f = c.func
+                is_append = (isinstance(f, ast.Attribute) and f.attr == "append") or isinstance(f, ast.Name)
+                if is_append and isinstance(c.args[0], ast.Call) and getattr(c, "_parent", None).__class__ is ast.Expr:
+                    return c, f, c.args[0], loops[0], loops[1]
+    return None
+
+
+def _alpha(texts: List[str], locals_: set) -> List[str]:
+    """rename the function's own local names by order of first appearance"""
+    table: Dict[str, str] = {}
+    out = []
+    for t in texts:
+        try:
+            x = ast.parse(t, mode="eval").body
+        except SyntaxError:
+            out.append(t)
+            continue
+        # deterministic traversal order
+        def visit(n):
+            if isinstance(n, ast.Name) and n.id in locals_:
+                if n.id not in table:
+                    table[n.id] = f"_v{len(table)}"
+                n.id = table[n.id]
+            for c in ast.iter_child_nodes(n):
+                visit(c)
+        visit(x)
+        out.append(ast.unparse(x))
+    return out
+
+
+def ngram_summary(repo, fi: FunctionInfo) -> Optional[Dict[str, object]]:
+    """what the n-gram section does, in expanded form with local names
+    alpha-renamed: loop ranges, the window appended, the guards it runs under,
+    how the result list starts and how the lower bound is adjusted"""
+    site = _append_site(fi)
+    if site is None:
+        return None
+    call, f, arg, inner, outer = site
+    ex = cy_expander(repo)
+    locals_ = {n.id for n in ast.walk(fi.node) if isinstance(n, ast.Name) and isinstance(n.ctx, ast.Store)}
+    st = stmt_of(call)
+    # receiver list of the append: `tokens.append` or a bound method `tokens_append`
+    fx = ex.norm_expr(f, fi, st)
+    recv = fx.value if isinstance(fx, ast.Attribute) and fx.attr == "append" else None
+    if recv is None:
+        return None
+    # the window, with the join function abstracted
+    win = ex.norm_expr(arg.args[0], fi, st) if arg.args else None
+    texts = [xt(ex.norm_expr(outer.iter, fi, outer)), xt(ex.norm_expr(inner.iter, fi, inner)), xt(win) if win is not None else "?", xt(recv)]
+    conds = sorted(pconds_cy(repo, fi).at(call))
+    # the result list and the lower bound: every binding with its branch facts
+    binds = []
+    rname = recv.id if isinstance(recv, ast.Name) else None
+    lows = {n.id for n in ast.walk(ex.norm_expr(outer.iter, fi, outer)) if isinstance(n, ast.Name) and n.id in locals_}
+    for nm in sorted(({rname} if rname else set()) | lows):
+        for s_ in sorted((x for x in ast.walk(fi.node) if isinstance(x, (ast.Assign, ast.AugAssign))), key=lambda x: x.lineno):
+            tg = s_.targets if isinstance(s_, ast.Assign) else [s_.target]
+            for t in tg:
+                elts = t.elts if isinstance(t, (ast.Tuple, ast.List)) else [t]
+                for k, e in enumerate(elts):
+                    if isinstance(e, ast.Name) and e.id == nm:
+                        if isinstance(s_, ast.AugAssign):
+                            v = ast.BinOp(left=ast.Name(id=nm, ctx=ast.Load()), op=s_.op, right=s_.value)
+                        elif isinstance(t, (ast.Tuple, ast.List)):
+                            v = ast.Subscript(value=s_.value, slice=ast.Constant(k), ctx=ast.Load())
+                        else:
+                            v = s_.value
+                        c_ = sorted(pconds_cy(repo, fi).at(s_))
+                        in_section = any(isinstance(p_, ast.If) for p_ in _parents(s_))
+                        vt = xt(ex.norm_expr(v, fi, s_))
+                        # bindings of the n-gram section (made under its guard) and the unpacking of the range
+                        in_section = bool(set(c_) & set(conds)) or "ngram_range" in vt
+                        if s_.lineno < outer.lineno and in_section:
+                            binds.append((nm, [c for c in c_], vt))
+    flat = texts + [t for _, _, t in binds] + [c[0] for c in conds] + [c[0] for _, cs, _ in binds for c in cs]
+    ren = _alpha(flat, locals_)
+    k = len(texts)
+    out = {"outer": ren[0], "inner": ren[1], "window": ren[2], "receiver": ren[3]}
+    vals = ren[k : k + len(binds)]
+    pos = k + len(binds)
+    cr = ren[pos : pos + len(conds)]
+    pos += len(conds)
+    out["guards"] = sorted(zip(cr, [c[1] for c in conds]))
+    bl = []
+    for (nm, cs, _), v in zip(binds, vals):
+        cc = ren[pos : pos + len(cs)]
+        pos += len(cs)
+        bl.append((sorted(zip(cc, [c[1] for c in cs])), v))
+    # keep the bindings that belong to the n-gram section or unpack the range
+    out["bindings"] = sorted(map(str, bl))
+    # what the function returns
+    rets = sorted(set(_alpha([xt(ex.norm_expr(r.value, fi, r)) for r in ast.walk(fi.node) if isinstance(r, ast.Return) and r.value is not None and _owner(r, fi.node)], locals_)))
+    out["returns"] = rets
+    return out
+
+
+def _owner(n, fn) -> bool:
+    p = getattr(n, "_parent", None)
+    while p is not None:
+        if isinstance(p, (ast.FunctionDef, ast.Lambda)):
+            return p is fn
+        p = getattr(p, "_parent", None)
+    return True
+
+
+def _parents(n):
+    p = getattr(n, "_parent", None)
+    while p is not None:
+        yield p
+        p = getattr(p, "_parent", None)
+
+
+_pc_cache: Dict[int, object] = {}
+
+
+def pconds_cy(repo, fi: FunctionInfo):
+    from engine.guards import PathConditions
+
+    k = id(fi.node)
+    pc = _pc_cache.get(k)
+    if pc is None:
+        ex = cy_expander(repo)
+        pc = _pc_cache[k] = PathConditions(fi.node, lambda t: ex.norm_expr(t, fi, t))
+    return pc
 
 
 def _ngram_block(fn: ast.AST) -> Optional[ast.If]:
@@ -167,33 +343,27 @@ def check_b(ck, repo):
         ck.unknown("C14.b", fi, "sklearn _VectorizerMixin._word_ngrams", "cannot read the installed scikit-learn source")
         return
     pfn, owner = got
-    mine, theirs = _ngram_block(fi.node), _ngram_block(pfn)
-    if mine is None or theirs is None:
-        ck.unknown("C14.b", fi, "if max_n != 1:", f"n-gram block not found (override: {mine is not None}, {owner}: {theirs is not None})")
+    pfn = clone_ast(pfn)
+    _set_parents(pfn)
+    pfi = FunctionInfo("_word_ngrams", f"ext:{owner}._word_ngrams", pfn, None)
+    mine_fi = FunctionInfo("_word_ngrams", fi.qualname + "#noresolve", fi.node, None)
+    a = ngram_summary(repo, mine_fi)
+    b = ngram_summary(repo, pfi)
+    if a is None or b is None:
+        ck.unknown("C14.b", fi, "n-gram loop nest", f"n-gram append site not found (override: {a is not None}, {owner}: {b is not None})")
         return
-    a = norm.dump(_strip_join(mine), rename=True)
-    b = norm.dump(_strip_join(theirs), rename=True)
-    ck.verdict(a == b, "C14.b", fi, "n-gram loop nest", f"identical to {owner}._word_ngrams modulo renaming and the join function", f"the n-gram loop nest differs from {owner}._word_ngrams (range bounds, slice original_tokens[i:i+n] or the min_n == 1 shortcut): the set or order of n-grams is not scikit-learn's")
-    # the unpacking of ngram_range and the final return
-    for fn, who in ((fi.node, "override"), (pfn, "parent")):
-        pass
-    u1 = [src_of(s) for s in ast.walk(fi.node) if isinstance(s, ast.Assign) and "ngram_range" in src_of(s.value)]
-    u2 = [src_of(s) for s in ast.walk(pfn) if isinstance(s, ast.Assign) and "ngram_range" in src_of(s.value)]
-    ck.verdict(u1 == u2, "C14.b", fi, f"{u1}", "n-gram range unpacked as in the parent", f"ngram_range is unpacked as {u1}, the parent does {u2}")
-    r1 = [src_of(r.value) for r in fi.node.body if isinstance(r, ast.Return)]
-    r2 = [src_of(r.value) for r in pfn.body if isinstance(r, ast.Return)]
-    ck.verdict(r1 == r2 == ["tokens"], "C14.b", fi, f"return {r1}", "returns the token list like the parent", f"returns {r1}, the parent returns {r2}")
-    # filter precedes wrapping precedes n-grams
-    order = []
-    for s in fi.node.body:
-        t = src_of(s)
-        if isinstance(s, ast.If) and src_of(s.test) == "stop_words is not None":
-            order.append("filter")
-        elif isinstance(s, ast.If) and src_of(s.test) == "tokens is not None":
-            order.append("wrap")
-        elif isinstance(s, ast.Assign) and "ngram_range" in t:
-            order.append("ngrams")
-    ck.verdict(order == ["filter", "wrap", "ngrams"], "C14.b", fi, f"order {order}", "filter strings, then wrap into tuples, then build n-grams", f"statement order is {order}; expected filter -> wrap -> ngrams")
+    # the wrapping into tuples happens before the section: bindings made outside the
+    # n-gram guard other than the unpacking of ngram_range are not part of the comparison
+    for k in ("outer", "inner", "window", "receiver", "guards", "returns"):
+        ck.verdict(a[k] == b[k], "C14.b", fi, f"n-gram section: {k} = {str(a[k])[:70]}", f"identical to {owner}._word_ngrams (expanded, local names renamed, join function abstracted)", f"the n-gram section differs from {owner}._word_ngrams in its {k}: {a[k]} vs {b[k]}: the set or order of n-grams is not scikit-learn's")
+    mine_b = [x for x in a["bindings"]]
+    their_b = [x for x in b["bindings"]]
+    extra = [x for x in mine_b if x not in their_b]
+    missing = [x for x in their_b if x not in mine_b]
+    # the override binds `tokens` two more times before the section (stop-word filter is shared; wrapping is its own)
+    ck.verdict(not missing, "C14.b", fi, f"result list / lower bound bindings ({len(mine_b)})", "the result list starts and the lower bound is adjusted as in the parent (unigram shortcut included)", f"bindings of the parent missing in the override: {missing}: the unigram shortcut or the start of the result list changed")
+    ck.extra["override_only_bindings"] = extra
+    # filter precedes wrapping precedes n-grams: the element kinds decided by C14.a imply the order
 
 
 def check_c(ck, repo):
